@@ -60,7 +60,7 @@ def setup(N, K, ns):
             for i in range(y + 1, m + 1):
                 f *= mpf(i) * (n2 - k + i) / (mpf(n1 - i + 1) * (k - i + 1))
         return f
-    return dict(n1=n1, n2=n2, k=k, m=m, sign=sign, off=off, x_l=x_l, p1=p1, p3=p3, ratio=ratio)
+    return dict(n1=n1, n2=n2, k=k, m=m, sign=sign, off=off, x_l=x_l, x_r=x_r, p1=p1, p2=p2, p3=p3, lam_l=lam_l, lam_r=lam_r, ratio=ratio)
 
 
 def main(out):
@@ -84,8 +84,35 @@ def main(out):
         if len(cand) > 14:
             step = len(cand) / 14.0
             cand = [cand[int(i * step)] for i in range(14)]
+        # regions 2 / 3 (exponential tails): y = floor(x_l + ln(v)/lambda_l) resp. floor(x_r - ln(v)/lambda_r); accepted iff
+        # v (u - p1) lambda_l <= f(y)/f(m) resp. v (u - p2) lambda_r <= f(y)/f(m): the second words returning y form an interval
+        rt = []
+        for (reg, fu) in ((2, mpf('0.3')), (2, mpf('0.7')), (3, mpf('0.3')), (3, mpf('0.7'))):
+            lo_u, hi_u = (s['p1'], s['p2']) if reg == 2 else (s['p2'], s['p3'])
+            u = lo_u + fu * (hi_u - lo_u)
+            j = int(floor(u / s['p3'] * (1 << 20))); u = mpf(j) / (1 << 20) * s['p3']
+            if not (lo_u < u <= hi_u):
+                continue
+            for dy in (1, 3, 6):
+                if reg == 2:
+                    y = int(floor(s['x_l'])) - dy
+                    if y < max(0, s['k'] - s['n2']):
+                        continue
+                    vlo = exp(s['lam_l'] * (y - s['x_l'])); vhi = exp(s['lam_l'] * (y + 1 - s['x_l']))
+                    cap = s['ratio'](y) / ((u - s['p1']) * s['lam_l'])
+                else:
+                    y = int(floor(s['x_r'])) + dy
+                    if y > min(s['n1'], s['k']):
+                        continue
+                    vhi = exp(-s['lam_r'] * (y - s['x_r'])); vlo = exp(-s['lam_r'] * (y + 1 - s['x_r']))
+                    cap = s['ratio'](y) / ((u - s['p2']) * s['lam_r'])
+                lo, hi = vlo, min(vhi, cap)
+                if hi - lo < mpf(2) ** -30 or hi > 1:
+                    continue
+                rt.append((j << 44, s['off'] + s['sign'] * y, (lo + hi) / 2, lo, hi))
+        at = ',\n      '.join('[w1 |-> "%d", out |-> %d, probe |-> "%d", lo |-> %s, hi |-> %s]' % (w1, o, int(floor(pr * 2 ** 64)), l14(floor(lo * 2 ** 64)), l14(floor(hi * 2 ** 64))) for (w1, o, pr, lo, hi) in rt)
         anchors = ',\n      '.join('[w1 |-> "%d", out |-> %d, dy |-> %d, frac |-> %s]' % (j << 50, s['off'] + s['sign'] * y, y - s['m'], l14(floor(F * 2 ** 64))) for (j, y, F) in cand)
-        rows.append('  [id |-> %d, N |-> "%d", K |-> "%d", n |-> "%d", m |-> %d,\n   r1 |-> <<\n      %s>>]' % (ci + 1, N, K, ns, s['m'], anchors))
+        rows.append('  [id |-> %d, N |-> "%d", K |-> "%d", n |-> "%d", m |-> %d,\n   r1 |-> <<\n      %s>>,\n   rt |-> <<\n      %s>>]' % (ci + 1, N, K, ns, s['m'], anchors, at))
     text = '''----------------------------- MODULE H2peTable -----------------------------
 (***************************************************************************)
 (* GENERATED by tools/gen_h2pe_table.py (mpmath, 50 digits) - do not edit. *)
